@@ -752,6 +752,7 @@ class Executor:
         r = z3.Const('hv_r', Ref)
         extra = fresh('alloc', z3.ArraySort(Ref, B))
         h.set('alive', z3.Lambda([r], z3.Or(old.alive(r), extra[r])))
+        h.maps['$alive_base'] = h.maps['alive']
         return old
 
     def check_frame(self, name, pre, post, modifies, fr, at_state):
@@ -1340,9 +1341,12 @@ class Executor:
                 s1.path.append(f'read of unassigned {name}')
                 out.append((Exc('AttributeError'), s1))
                 continue
+            base = s1.heap.is_base_map(Heap.fkey(name, '', Ref)) if ty.kind == 'ref' else False
             v = s1.heap.load(o.t, name, ty)
             if v.kind == 'ref' and not s1.pure:
                 s1.assume(z3.Or(v.t == NONE, s1.heap.alive(v.t)))
+                if base:
+                    s1.assume(z3.Or(v.t == NONE, s1.heap.alive_base()[v.t]))
                 if ty.cls in self.table.classes and ty.cls not in ('list', 'dict'):
                     s1.assume(z3.Or(v.t == NONE, self.isinstance_term(v.t, ty.cls)))
             out.append((v, s1))
